@@ -135,6 +135,11 @@ func (w *c15World) handoff(e *c15End, name string) bool {
 	if !ns.IsEncrypted() {
 		return w.fail("import-not-encrypted", "imported stream is not encrypted")
 	}
+	// the receiver of a hand-off wipes (or reuses) the buffer the blob arrived in;
+	// the imported stream must not depend on it any more
+	for i := range blob {
+		blob[i] = 0xA5
+	}
 	e.s, e.conn = ns, nc
 	e.handoffs++
 	return true
